@@ -1039,6 +1039,10 @@ def apply_step(p, step, ctx):
         r = o["resolve"](p, ir, st_, ex, k1, k2, k3, ctx)
     except rejection_types() as e:
         return None, "rejected", {"op": name, "err": f"resolve: {type(e).__name__}: {str(e)[:200]}"}
+    except (KeyboardInterrupt, SystemExit, MemoryError):
+        raise
+    except BaseException as e:  # noqa  (resolvers of composite ops call scheduling functions themselves)
+        return None, "internal", {"op": name, "err": f"resolve: {type(e).__name__}: {str(e)[:200]}"}
     if r is None:
         return None, "noop", {"op": name}
     thunk, desc = r
